@@ -354,15 +354,18 @@ def qr_witness(step, enc, stats):
     for m, k in enumerate(p):
         inv[k] = m
     qz = [[(row[l] if abs(row[l]) > 1e-10 else 0j) for l in range(rank)] for row in q]
-    r2 = [[(r[l][inv[k]] if abs(r[l][inv[k]]) > r00 * 1e-10 else 0j) for k in range(len(p))] for l in range(rank)]
+    # r[:rank] thresholded in place; the model applies the column un-pivoting r[:, argsort(p)] itself (`unpivot`)
+    rz = [[(r[l][m] if abs(r[l][m]) > r00 * 1e-10 else 0j) for m in range(len(p))] for l in range(rank)]
     dropped = sum(1 for row in q for l in range(rank) if 0 < abs(row[l]) <= 1e-10)
-    dropped += sum(1 for l in range(rank) for k in range(len(p)) if 0 < abs(r[l][inv[k]]) <= r00 * 1e-10)
+    dropped += sum(1 for l in range(rank) for m in range(len(p)) if 0 < abs(r[l][m]) <= r00 * 1e-10)
     stats["qr_dropped"] = stats.get("qr_dropped", 0) + dropped
     stats["qr_rank_deficient"] = stats.get("qr_rank_deficient", 0) + (1 if rank < min(len(q), len(p)) else 0)
+    stats["qr_nontrivial_pivot"] = stats.get("qr_nontrivial_pivot", 0) + (1 if list(p) != sorted(p) else 0)
     Q = [[enc((x.real, x.imag)) for x in row] for row in qz]
-    R2 = [[enc((x.real, x.imag)) for x in row] for row in r2]
-    lit = "(WQ GiRing %s %s %s %s %d)" % (lst(key_lit(k) for k in step["term_row"]), lst(key_lit(k) for k in step["term_col"]),
-                                          mat_lit(Q), mat_lit(R2), rank)
+    Rz = [[enc((x.real, x.imag)) for x in row] for row in rz]
+    lit = "(WQ GiRing %s %s %s (unpivot GiRing %s %s %d) %d)" % (
+        lst(key_lit(k) for k in step["term_row"]), lst(key_lit(k) for k in step["term_col"]),
+        mat_lit(Q), mat_lit(Rz), lst(str(int(x)) for x in p), len(p), rank)
     gnorm = sum(abs(complex(*v)) ** 2 for row in step["gamma"] for v in row) ** 0.5
     return lit, rank, gnorm
 
@@ -823,8 +826,8 @@ def chunks(xs, n):
 def run(ctx):
     quick = ctx.tier == "quick"
     rng = ctx.rng
-    ncorr = 150 if quick else 2000
-    norc = 450 if quick else 8000
+    ncorr = 180 if quick else 1500
+    norc = 600 if quick else 6000
     stats = {}
     ctx.trusted += [
         "correspondence harness/c01.py + harness/impl/c01_impl.py: generated models/term lists; witness loggers wrapping _decompose_graph, _decompose_qr, bipartite_vertex_cover, scipy.linalg.qr, swap_site; JSON export; canonicalisation (out-ops sorted inside a bond entry, tables sorted); Gaussian-integer scaling of dyadic factors",
@@ -842,6 +845,13 @@ def run(ctx):
                                 "ok": False, "assumptions": None})
     import time as _t
     T = {"coq_build_props": round(_t.time() - ctx.t0, 1)}
+    import re as _re0
+    for rel in ("Model/SymMpo.v", "Proofs/SymMpoProofs.v"):
+        src = _re0.sub(r"\(\*.*?\*\)", "", open(os.path.join(common.COQ, rel)).read(), flags=_re0.S)
+        bad = _re0.findall(r"\b(Admitted|admit|Axiom|Parameter|Conjecture|Abort)\b", src)
+        if bad:
+            ok_props = False
+            ctx.obligations.append({"name": "no-escape-hatch gate " + rel, "file": rel, "ok": False, "assumptions": bad})
     # ---------------------------------------------------------------- 2. cases
     cases = []
     dist = {"nsites": {}, "nterms": {}, "kinds": {}, "flavour": {}, "complex": 0, "complex_matrix_real_factors": 0, "offset": 0, "dup_or_cancel_terms": 0,
@@ -1028,6 +1038,18 @@ def run(ctx):
         if flavour == "wide":
             c["algos"] = GRAPH_ALGOS
         ocases.append(c)
+    n_exh = 0
+    if not quick:
+        # exhaustive small scope: every list of 1..3 distinct strings over {I, sigma_x, sigma_z}^3 (3 spin sites),
+        # factors 1, 2, -3 by position, all three algorithms
+        import itertools
+        strings = list(itertools.product(["I", "sigma_x", "sigma_z"], repeat=3))
+        sites3 = [{"kind": "spin"}] * 3
+        for m in (1, 2, 3):
+            for combo in itertools.combinations(strings, m):
+                terms = [{"f": [[1.0, 2.0, -3.0][j], 0.0], "ops": [["s%d" % i, x] for i, x in enumerate(st)]} for j, st in enumerate(combo)]
+                ocases.append({"id": 300000 + n_exh, "sites": sites3, "terms": terms, "offset": 0.0, "flavour": "int", "complex": False})
+                n_exh += 1
     obatches = chunks(ocases, 14)
     oouts = ctx.impl_par("c01_oracle.py", [{"cases": b, "algos": ALGOS} for b in obatches], timeout=1200)
     obyid = {c["id"]: c for c in ocases}
@@ -1103,7 +1125,7 @@ def run(ctx):
     stats["phase_end_times_s"] = T
     ctx.notes.append("probes of known-problem input classes (exit code 0 = property holds there): %s" % probe_res)
     ctx.notes.append("swap_sound is proved for the model of swap_site; the tie for swapping is correspondence (integer-factor cases) + dense oracle")
-    dist.update({"correspondence_cases": len(cases), "oracle_cases": len(ocases), "malformed_cases": len(malformed),
+    dist.update({"correspondence_cases": len(cases), "oracle_cases": len(ocases), "exhaustive_3spin_lists": n_exh, "malformed_cases": len(malformed),
                  "fast_path_comparisons": fast_cases, "stats": stats})
     return {"evaluations": n_cmp + n_orc + n_swaps,
             "distinct_nontrivial": len(nontrivial),
